@@ -487,7 +487,11 @@ def run_extra(ck, standalone=False):
     big = ck.tier == "thorough"
     ex = {"fortran_compiler": GFORTRAN, "build_dir": IMPLF}
     ck.extra["c20f"] = ex
-    n_before = len(ck.violations)
+    hard = []                        # violations that are not listed-or-listable finding keys
+
+    def viol(r, **kw):
+        hard.append(1)
+        ck.violation(r, **kw)
     vlib.build_impl()
     tb = time.time()
     lib, out = build_fortran_impl()
@@ -496,7 +500,7 @@ def run_extra(ck, standalone=False):
     if lib is None:
         # the working tree no longer builds with the Fortran interface on (e.g. cgns_f.F90 does not compile)
         errs = [l for l in out.split("\n") if "Error" in l or "error:" in l][:6]
-        ck.violation({"level": "fortran-build", "oracle": "the working tree builds with -DCGNS_ENABLE_FORTRAN=ON (gfortran-12)",
+        viol({"level": "fortran-build", "oracle": "the working tree builds with -DCGNS_ENABLE_FORTRAN=ON (gfortran-12)",
                       "errors": errs, "log_tail": out[-1500:]})
         return
     # ---- tie T + kernel
@@ -519,7 +523,7 @@ def run_extra(ck, standalone=False):
     forb = [h for h in vlib.coq_forbidden_scan() if re.match(MY_COQ, h)]
     ex["forbidden_tokens"] = forb
     if forb:
-        ck.violation({"broken_obligation": "forbidden tokens in the C20f Coq files", "hits": forb}, nofail=True)
+        viol({"broken_obligation": "forbidden tokens in the C20f Coq files", "hits": forb}, nofail=True)
     bad, err = coq_bad_rows(ck.work)
     ex["rows_failing_abi_ok"] = bad if bad is not None else "could not be evaluated: %s" % err
     known_static = {"cg_bcdataset_info_f", "cg_field_id_f", "cg_1to1_id_f", "cg_state_size_f"}
@@ -530,7 +534,7 @@ def run_extra(ck, standalone=False):
     ref = vlib.build_harness("c20f_ref", ["c20f_ref.c"])
     drv, derr = build_driver()
     if drv is None:
-        ck.violation({"level": "fortran-compile", "oracle": "a Fortran program using the documented calls of the API compiles and links against "
+        viol({"level": "fortran-compile", "oracle": "a Fortran program using the documented calls of the API compiles and links against "
                       "cgns.mod / libcgns.a of the working tree", "compiler_output": derr[-2500:],
                       "rows_failing_abi_ok": new_bad, "broken_obligations": broken})
         return
@@ -550,7 +554,7 @@ def run_extra(ck, standalone=False):
                             "witness": "program p; use cgns; ...; call %s(...); end  ->  ld: undefined reference to `%s'" % (sym.rstrip("_"), sym)}):
             pass
     if la["compile_errors"]:
-        ck.violation({"level": "linkall-compile", "oracle": "one call per interface body, generated from the parsed interface, compiles",
+        viol({"level": "linkall-compile", "oracle": "one call per interface body, generated from the parsed interface, compiles",
                       "compiler_output": la["compile_errors"][-2000:]}, nofail=True)
 
     # ---- three-way scenarios
@@ -583,7 +587,7 @@ def run_extra(ck, standalone=False):
             ex.setdefault("reference_run_problems", []).append({"backend": backend, "kind": kind, "detail": detail})
         elif fails and not found_fail:
             small, d2 = shrink(exes, script, ck.work, backend, detail)
-            ck.violation({"level": "fortran", "backend": backend, "kind": kind, "script": small, "detail": d2, "oracle": ORACLE,
+            viol({"level": "fortran", "backend": backend, "kind": kind, "script": small, "detail": d2, "oracle": ORACLE,
                           "replay_hint": ".build/h/c20f_drv <file> <file2> %s  |  .build/h/c20f_ref f|c <file> <file2> %s" % (backend, backend)})
             found_fail = True
 
@@ -611,7 +615,7 @@ def run_extra(ck, standalone=False):
                          "detail": {k: w2[k] for k in ("op", "fortran", "reference")}, "oracle": ORACLE})
 
     # ---- verdict logic: an obligation broke without a failing input so far -> widen, then report
-    if (broken or new_bad) and len(ck.violations) == n_before:
+    if (broken or new_bad) and not hard:
         found = False
         for j in range(6 if not big else 12):
             for kind, gen in GENERATORS:
@@ -621,7 +625,7 @@ def run_extra(ck, standalone=False):
                     ck.cov["evaluations"] += len(script)
                     if fails:
                         small, d2 = shrink(exes, script, ck.work, backend, detail)
-                        ck.violation({"level": "fortran", "backend": backend, "kind": kind, "script": small, "detail": d2, "found_by": "widened search",
+                        viol({"level": "fortran", "backend": backend, "kind": kind, "script": small, "detail": d2, "found_by": "widened search",
                                       "broken_obligations": broken, "rows_failing_abi_ok": new_bad, "oracle": ORACLE})
                         found = True
                         break
@@ -630,7 +634,7 @@ def run_extra(ck, standalone=False):
             if found:
                 break
         if not found:
-            ck.violation({"broken_obligations": broken, "rows_failing_abi_ok": new_bad,
+            viol({"broken_obligations": broken, "rows_failing_abi_ok": new_bad,
                           "note": "an interface body of cgns_f.F90 no longer matches the C definition it links to (or the table obligation no "
                                   "longer checks), but every scenario explored still satisfies Fortran == wrapper == direct call and "
                                   "everything links"}, nofail=True)
